@@ -145,6 +145,16 @@ func (a ArgumentConditions) Validate() []string {
 		if condition.Argument < 0 || condition.Argument > 5 {
 			problems = append(problems, fmt.Sprintf("argument must be between 0 and 5 (inclusive), but is %v", condition.Argument))
 		}
+
+		validOperation := false
+		for _, operation := range Operations {
+			if condition.Operation == operation {
+				validOperation = true
+			}
+		}
+		if !validOperation {
+			problems = append(problems, fmt.Sprintf("invalid operation: %v", condition.Operation))
+		}
 	}
 	return problems
 }
